@@ -454,6 +454,14 @@ func (e *Exec) readElem(st *State, r *Region, idx T, path []int, typ types.Type)
 			name += "." + k
 		}
 		return VIface{Nil: nilc, Obj: e.lazyObject(name+"^", typ), Typ: typ}
+	case *types.Signature:
+		// element holding a function value: abstract, only its nil-ness is tracked
+		k := key
+		if k == "" {
+			k = "_"
+		}
+		nilc := Select(e.regArr(st, r, k+".nil", BoolSort), idx)
+		return VFunc{Abstract: fmt.Sprintf("%s[%s]", r.Name, idx.S), Nil: nilc, Typ: typ}
 	}
 	e.unsupported("region element of type " + typ.String())
 	return VOpaque{T: BVConst(64, 0), Typ: typ}
@@ -535,6 +543,12 @@ func (e *Exec) writeElem(st *State, r *Region, idx T, path []int, v Value) {
 			e.setRegArr(st, r, k+".addr", Store(e.regArr(st, r, k+".addr", BV64), idx, e.fresh("addr", BV64)))
 		}
 	case VIface:
+		k := key
+		if k == "" {
+			k = "_"
+		}
+		e.setRegArr(st, r, k+".nil", Store(e.regArr(st, r, k+".nil", BoolSort), idx, x.Nil))
+	case VFunc:
 		k := key
 		if k == "" {
 			k = "_"
